@@ -565,4 +565,46 @@ example : userdirRemap false true (ofString "/home") (ofString "public_html") (o
 example : userdirRemap false false (ofString "/home") (ofString "public_html") (ofString "/~../x") (ofString "/~../x")
     = .pass := by decide
 
+/-- mod_indexfile_tryfiles(): the path finally opened is the request's physical path or that path
+    (resp. the doc root) joined with one of the configured index names - nothing else -/
+theorem c02_index_resolve_configured (exists_ : Bytes → Bool) (docroot phys : Bytes) (names : List Bytes) :
+    indexResolve exists_ docroot phys names = phys ∨
+    ∃ v ∈ names, indexResolve exists_ docroot phys names
+      = pathAppend (if v.head? = some slash then docroot else phys) v := by
+  induction names with
+  | nil => left; rfl
+  | cons v rest ih =>
+    unfold indexResolve
+    dsimp only
+    by_cases he : exists_ (pathAppend (if v.head? = some slash then docroot else phys) v) = true
+    · rw [if_pos he]; right; exact ⟨v, by simp, rfl⟩
+    · rw [if_neg he]
+      rcases ih with h | ⟨w, hw, h⟩
+      · left; exact h
+      · right; exact ⟨w, by simp [hw], h⟩
+
+/-- a static file served in a context where server.follow-symlink is disabled: the path finally
+    opened - after mod_indexfile appended an index file name - exists and has no symbolic link at
+    the path itself or at any prefix ending before a '/' (except the root).  The model's decision
+    depends only on this request's context and the filesystem (no stat-cache state) - the end-to-end
+    stream checks the server against it on request sequences across contexts with a warm cache. -/
+theorem c02_index_symlink_walk (fs : Bytes → FsKind) (exists_ : Bytes → Bool) (docroot phys : Bytes)
+    (names : List Bytes) (hlen : 1 < (indexResolve exists_ docroot phys names).length)
+    (h : staticServed false fs phys (indexResolve exists_ docroot phys names) = true) :
+    fsOk (fs (indexResolve exists_ docroot phys names)) ∧
+    ∀ i, 0 < i → i < (indexResolve exists_ docroot phys names).length →
+      (indexResolve exists_ docroot phys names).getD i 0 = slash →
+      fsOk (fs ((indexResolve exists_ docroot phys names).take i)) := by
+  unfold staticServed at h
+  simp only [Bool.false_or, Bool.and_eq_true, decide_eq_true_eq] at h
+  exact c02_symlink_walk fs _ hlen (by unfold symlinkServed; simp [h.2])
+
+example : staticServed false
+    (fun p => if p = ofString "/w/dir/index.html" then .link else if p = ofString "/w/dir/" then .dir else .dir)
+    (ofString "/w/dir/")
+    (indexResolve (fun _ => true) (ofString "/w") (ofString "/w/dir/") [ofString "index.html"]) = false := by
+  decide +kernel
+example : staticServed true (fun _ => .link) (ofString "/w/dir/") (ofString "/w/dir/index.html") = true := by
+  decide +kernel
+
 end LtVerif.C02
